@@ -300,6 +300,100 @@ def first_trial_reference(rep, rs, ncases):
     return done
 
 
+def default_criteria_layer(rep):
+    """DefaultCriteria.tla: which acceptance rule a move gets when none is passed.  Tables and class relation are
+    extracted from the package, TLC checks that first-match is most-specific-match, and add_move is replayed for every
+    driver x shipped move class."""
+    import inspect
+
+    import quansino.moves as qm
+    from quansino.mc.canonical import Canonical, HamiltonianCanonical
+    from quansino.mc.core import MonteCarlo
+    from quansino.mc.gcmc import GrandCanonical
+    from quansino.mc.isobaric import Isobaric
+    from quansino.mc.isotension import Isotension
+    from quansino.moves.cell import CellMove
+    from quansino.moves.composite import CompositeMove
+    from quansino.moves.core import BaseMove
+    from quansino.moves.displacement import CompositeDisplacementMove, DisplacementMove, HamiltonianDisplacementMove
+    from quansino.moves.exchange import CompositeExchangeMove, ExchangeMove
+
+    drivers = {"MonteCarlo": MonteCarlo, "Canonical": Canonical, "HamiltonianCanonical": HamiltonianCanonical, "Isobaric": Isobaric, "Isotension": Isotension, "GrandCanonical": GrandCanonical}
+    classes = {c.__name__: c for c in (BaseMove, DisplacementMove, HamiltonianDisplacementMove, ExchangeMove, CellMove, CompositeMove, CompositeDisplacementMove, CompositeExchangeMove)}
+    for D in drivers.values():
+        for k in D.default_criteria:
+            classes.setdefault(k.__name__, k)
+    for _, obj in inspect.getmembers(qm, inspect.isclass):
+        if issubclass(obj, (BaseMove, CompositeMove)):
+            classes.setdefault(obj.__name__, obj)
+    names = sorted(classes)
+    q = lambda x: '"' + x + '"'  # noqa: E731
+    lines = ["---- MODULE DefaultCriteriaData ----", "\\* generated from the package at check time (harness/c02.py)", "EXTENDS Sequences", "",
+             "Drivers == {" + ", ".join(q(d) for d in drivers) + "}", "MoveClasses == {" + ", ".join(q(n) for n in names) + "}",
+             "Sub == {" + ", ".join(f"<<{q(a)}, {q(b)}>>" for a in names for b in names if issubclass(classes[a], classes[b])) + "}", "Table(d) =="]
+    cases = []
+    for i, (dn, D) in enumerate(drivers.items()):
+        tab = ", ".join(f"[cls |-> {q(k.__name__)}, crit |-> {q(v.__name__)}]" for k, v in D.default_criteria.items())
+        lines.append(("    CASE " if i == 0 else "      [] ") + f"d = {q(dn)} -> <<{tab}>>")
+    lines += ["====", ""]
+    tmp = tempfile.mkdtemp(prefix="c02dc_")
+    try:
+        from common import SPEC
+
+        for f in ("DefaultCriteria.tla", "MC_DefaultCriteria.cfg"):
+            shutil.copy(SPEC / f, tmp)
+        open(os.path.join(tmp, "DefaultCriteriaData.tla"), "w").write("\n".join(lines))
+        if os.environ.get("VERIF_DUMP_DATA"):  # refresh the committed copy (only used by setup.sh's SANY pass)
+            open(SPEC / "DefaultCriteriaData.tla", "w").write("\n".join(lines))
+        r = run_tlc("DefaultCriteria", "MC_DefaultCriteria.cfg", workers=1, timeout=600, cwd=tmp)
+    finally:
+        shutil.rmtree(tmp, ignore_errors=True)
+    if not r.ok:
+        if r.invariant_violated:
+            rep.violation(f"model:default-criteria:{r.invariant_violated[0]}", f"TLC: {r.invariant_violated[0]} violated in DefaultCriteria.tla: in some driver's table an entry is shadowed by an earlier entry of a base class, so a move would be judged by the rule of its base class", {"tlc": r.out[-2500:]})
+        else:
+            rep.error(f"TLC failed on DefaultCriteria: {r.out[-1200:]}")
+        return 0
+    for line in r.out.splitlines():
+        line = line.strip()
+        if line.startswith('"@@'):
+            cases.append(json.loads(json.loads(line)[2:]))
+
+    def instance(cn):
+        d = lambda: DisplacementMove([0, 1])  # noqa: E731
+        e = lambda: ExchangeMove([0, 1])  # noqa: E731
+        return {"DisplacementMove": d, "ExchangeMove": e, "HamiltonianDisplacementMove": lambda: HamiltonianDisplacementMove(), "CellMove": lambda: CellMove(),
+                "CompositeMove": lambda: CompositeMove([d(), CellMove()]), "CompositeDisplacementMove": lambda: d() + d(), "CompositeExchangeMove": lambda: e() + e(),
+                "BaseMove": lambda: BaseMove()}.get(cn, lambda: classes[cn]())()
+
+    n = 0
+    for case in cases:
+        dn, cn, want = case["driver"], case["cls"], case["crit"]
+        try:
+            mv = instance(cn)
+        except Exception:  # noqa: BLE001  (abstract or needs arguments the harness does not know: not replayed)
+            continue
+        crit_cls = next((v for k, v in drivers[dn].default_criteria.items() if v.__name__ == want), None)
+        if crit_cls is not None and inspect.isabstract(crit_cls):
+            continue  # the base driver's table names the abstract BaseCriteria: a placeholder, nothing can be built from it
+        a = Atoms("Cu2", positions=[[1, 1, 1], [3, 3, 3]], cell=[8, 8, 8], pbc=True)
+        kw = {"MonteCarlo": {}, "Canonical": {"temperature": 300.0}, "HamiltonianCanonical": {"temperature": 300.0}, "Isobaric": {"temperature": 300.0, "pressure": 0.0},
+              "Isotension": {"temperature": 300.0, "pressure": 0.0}, "GrandCanonical": {"temperature": 300.0, "chemical_potential": 0.0, "number_of_exchange_particles": 2, "exchange_atoms": Atoms("Cu", positions=[[0, 0, 0]])}}[dn]
+        mc = drivers[dn](a, **kw)
+        n += 1
+        rep.count(("default-criteria", dn, cn), nontrivial=want != "none")
+        try:
+            mc.add_move(mv)
+            got = type(mc.moves["default"].criteria).__name__
+        except ValueError:
+            got = "none"
+        except Exception as ex:  # noqa: BLE001
+            got = f"raised {type(ex).__name__}"
+        if got != want:
+            rep.violation(f"default-criteria:{dn}:{cn}", f"{dn}.add_move({cn}) without a criteria uses {got}; the table's most specific entry is {want}", {"driver": dn, "move": cn})
+    return n
+
+
 def run(tier: str) -> int:
     rep = Report("C02", tier, "model_checking")
     rs = np.random.RandomState(rep.seed % 2**32)
@@ -473,7 +567,7 @@ def run(tier: str) -> int:
                 break
     # ---- the reference volume of the first trial of a run is the volume the atoms have WHEN THE RUN STARTS ----------
     nrun = first_trial_reference(rep, rs, 12 if tier == "quick" else 120)
-    rep.add(first_trial_runs=nrun, sequences=nseq)
+    rep.add(first_trial_runs=nrun, sequences=nseq, default_criteria_cases=default_criteria_layer(rep))
     rep.add(states=r.distinct, transitions=r.generated, traces_validated_against_impl=n_real, exhaustive=True, lattice_points=len(pts), hydrostatic_pairs=nh, offlattice=noff,
             guard_band_discards=guard, isotension_points_skipped_strain_definition=skipped_strain,
             rule="every lattice point of Accept.tla (energies, P dV, stress work, mu in units of kT ln2 incl. 0, +-1, +-709, +-1025, +-1100, +-1e6; V'/V = 2^m; prefactor 2^a; N in 0..3; u = 2^-(j+1/2), j up to 1000; T in {T0, 2T0}) realised on real Canonical/HamiltonianCanonical/Isobaric/Isotension/GrandCanonical objects through their property setters after installing stale values (cubic, triclinic, sheared cells; atomic and molecular species; antisymmetric stress decoration); plus random hydrostatic isotension-vs-isobaric pairs and random off-lattice inputs judged by the log-form mirror with a guard band")
